@@ -815,9 +815,12 @@ fn c17(tier: Tier) -> i32 {
     }
     {
         let ns_names: Vec<String> = (0..tok_strings.len()).map(|i| format!("t{i:03}")).collect();
-        let ns_refs: Vec<&str> = ns_names.iter().map(|s| s.as_str()).collect();
+        let mut ns_refs: Vec<&str> = ns_names.iter().map(|s| s.as_str()).collect();
+        ns_refs.push("vars");
         let mut p = Project::new(Config::simple("en", &["en"]).with_namespaces(&ns_refs));
         let mut tables: BTreeMap<(String, String), Vec<String>> = BTreeMap::new();
+        p.set_file(Some("vars"), "en", vec![("amount".into(), s(vec![var("n")])), ("both".into(), s(vec![var("a"), var("b")]))]);
+        tables.insert(("en".to_string(), "vars".to_string()), vec![]);
         for (ns, sv) in ns_names.iter().zip(&tok_strings) {
             p.set_file(Some(ns), "en", vec![("s".into(), st(sv)), ("tail".into(), st("ok"))]);
             tables.insert(("en".to_string(), ns.clone()), vec![sv.clone(), "ok".to_string()]);
@@ -825,6 +828,24 @@ fn c17(tier: Tier) -> i32 {
         let mut c = Case::new(&format!("c17_{}_tok", tier.name()), p.clone());
         c.probe.features = vec!["dynamic_load"];
         c.probe.items.push_str(C17_ITEMS);
+        // units whose string table is EMPTY (values made of variables only), alone and next to other units
+        c.add("serde_json::to_string(&I18nKeys::__i18n_request_translations__(Locale::en, I18nTranslationUnitsId::vars)).unwrap()".to_string(), "TABLE en vars".to_string(), String::new());
+        c.add(
+            "render_page(move || { let _ = futures::executor::block_on(async { td_string!(Locale::en, vars.amount, n = 42).await.to_string() }); })".to_string(),
+            "PAGE touched [(\"en\", \"vars\")]".to_string(),
+            String::new(),
+        );
+        c.add(
+            "render_page(move || { let _ = futures::executor::block_on(async { td_string!(Locale::en, vars.both, a = 1, b = 2).await.to_string() }); let _ = futures::executor::block_on(async { td_string!(Locale::en, t000.tail).await.to_string() }); })".to_string(),
+            "PAGE touched [(\"en\", \"vars\"), (\"en\", \"t000\")]".to_string(),
+            String::new(),
+        );
+        c.add(
+            "render_page(move || { let _ = futures::executor::block_on(async { td_string!(Locale::en, t000.tail).await.to_string() }); let _ = futures::executor::block_on(async { td_string!(Locale::en, vars.amount, n = 1).await.to_string() }); })".to_string(),
+            "PAGE touched [(\"en\", \"t000\"), (\"en\", \"vars\")]".to_string(),
+            String::new(),
+        );
+        n_pages += 3;
         for ns in &ns_names {
             c.add(format!("serde_json::to_string(&I18nKeys::__i18n_request_translations__(Locale::en, I18nTranslationUnitsId::{ns})).unwrap()"), format!("TABLE en {ns}"), String::new());
         }
@@ -920,7 +941,7 @@ fn c17(tier: Tier) -> i32 {
     rep.nontriv(n_pages);
     rep.sample(json!({"strings": ["\"\\", "</script>", "he said \"hi\" \\ </script> end", "\u{2028}a"]}));
     let mut cov = serde_json::Map::new();
-    cov.insert("rule".into(), json!("two probe crates built with dynamic_load + ssr (two namespaces x two locales; no namespaces): translation strings = all 196 two-character strings over 14 hostile characters plus </script>, </SCRIPT , <!--, -->, ]]>, U+2029, quotes, backtick, ${x}, newlines alone and inside a sentence with quotes and backslashes, and every sequence of <= 2 (thorough 3) tokens over <!--, <script>, <script , </script>, -->, <!-->, x; pages = <I18nContextProvider> rendered natively to HTML for every ordered subset of touched units (65 with namespaces, 5 without) and a context-driven render with a locale switch in the middle; third probe crate: every such token sequence of <= 2 tokens (+ a trailing x; thorough <= 3) alone in a namespace of its own, one page per namespace; oracle: the <script> element is cut the way the WHATWG tokenizer cuts it (script data / escaped / double escaped states: after `<!--` then `<script` an end tag no longer closes the element), its body must be `window.__LEPTOS_I18N_TRANSLATIONS = <array literal>;` read by an ECMAScript literal reader (all JS escapes, no raw line terminators in strings), and its decoded value must list exactly the touched (locale, unit) pairs, each with the unit's table as exported by the generated server function"));
+    cov.insert("rule".into(), json!("two probe crates built with dynamic_load + ssr (two namespaces x two locales; no namespaces): translation strings = all 196 two-character strings over 14 hostile characters plus </script>, </SCRIPT , <!--, -->, ]]>, U+2029, quotes, backtick, ${x}, newlines alone and inside a sentence with quotes and backslashes, and every sequence of <= 2 (thorough 3) tokens over <!--, <script>, <script , </script>, -->, <!-->, x; pages = <I18nContextProvider> rendered natively to HTML for every ordered subset of touched units (65 with namespaces, 5 without) and a context-driven render with a locale switch in the middle; third probe crate: every such token sequence of <= 2 tokens (+ a trailing x; thorough <= 3) alone in a namespace of its own, one page per namespace, plus a namespace whose values are variables only (empty string table) rendered alone and before / after another unit; oracle: the <script> element is cut the way the WHATWG tokenizer cuts it (script data / escaped / double escaped states: after `<!--` then `<script` an end tag no longer closes the element), its body must be `window.__LEPTOS_I18N_TRANSLATIONS = <array literal>;` read by an ECMAScript literal reader (all JS escapes, no raw line terminators in strings), and its decoded value must list exactly the touched (locale, unit) pairs, each with the unit's table as exported by the generated server function"));
     cov.insert("exhaustive".into(), json!(true));
     rep.finish(cov, &["the hydrate-side consumer (init_translations, serde_wasm_bindgen) needs a browser: not executed"])
 }
